@@ -32,7 +32,7 @@ LEVEL_TEXT = "Exploration by parse-back: the emitted text is parsed with two reg
 LEVEL_NOTE = "Trusts the line grammar below (declaration / relation lines). Search, not proof."
 TECHNIQUE = "Hypothesis generation + parse-back (round-trip) oracle with multiset comparison"
 
-ARROWS = [("", ">"), ("", ""), ("<", ""), ("o", ">"), ("*", ""), ("<", ">"), ("", "|>"), ("#", "")]
+ARROWS = [("", ">"), ("", ""), ("<", ""), ("o", ">"), ("*", ""), ("<", ">"), ("", "|>"), ("}o", "||")]     # the last: PlantUML crow's-foot ends (braces)
 
 
 def budget(tier):
@@ -55,13 +55,14 @@ def make_options(opt, extra):
     klass = bool(opt & 4)           # base vertex type 'class' instead of 'object'
     base_only_arrows = bool(opt & 8)
     urf = bool(opt & 16)
+    nested = bool(opt & 2048) and not idtitles and not (bool(opt & 64) and not idtitles)     # a title format with a replacement field nested in a format spec
     class_attr = bool(opt & 128) and custom_sub and not idtitles    # SubVertex titles use the CLASS-level constant `kind`
     peers = bool(opt & 256)                                           # the declarations also show `peer` (a neighbouring vertex object)
     px = ["^peer$"] if peers else []
     o = {
         "skinparams": {"dpi": "300"} if opt & 32 else {},
-        Vertex: {"type": "class" if klass else "object", "show_attrs": ((["^i$"] if not idtitles else ["^i$", "^zz"]) if not id_attr else ["^id$", "^i$"]) + px,
-                 "title_format": "$id" if idtitles else ("n{id}" if id_attr else "v{i}")},
+        Vertex: {"type": "class" if klass else "object", "show_attrs": ((["^i$"] if not idtitles else ["^i$", "^zz"]) if not id_attr else ["^id$", "^i$"]) + px + (["^pad$"] if nested else []),
+                 "title_format": "$id" if idtitles else ("n{id}" if id_attr else ("v{i:0{pad}d}" if nested else "v{i}"))},
         DirectedEdge: dict(zip(("v1side", "v2side"), ARROWS[extra % 8] if base_only_arrows else ("", ">"))),
         UnDirectedEdge: {"v1side": "", "v2side": ""},
         TwoEndedLink: {"v1side": "x", "v2side": "x"},
@@ -72,7 +73,7 @@ def make_options(opt, extra):
         o[C.SubOdd] = {"v1side": "+", "v2side": "+"}
         # a DIFFERENT class with the same __name__ ("SubVertex"), configured differently
         o[C.SubVertexTwin] = {"type": "object", "show_attrs": ["^i$"], "title_format": "$id" if idtitles else "w{i}"}
-    return o, dict(idtitles=idtitles, custom_sub=custom_sub, urf=urf, id_attr=id_attr, class_attr=class_attr, peers=peers)
+    return o, dict(idtitles=idtitles, custom_sub=custom_sub, urf=urf, id_attr=id_attr, class_attr=class_attr, peers=peers, nested=nested)
 
 
 def DEFAULT_TABLE():
@@ -96,7 +97,7 @@ def SHOW_ATTRS(cls, flags, opt):
         return [".+"]
     px = ["^peer$"] if flags["peers"] else []
     if cls is Vertex:
-        return ((["^i$"] if not flags["idtitles"] else ["^i$", "^zz"]) if not flags["id_attr"] else ["^id$", "^i$"]) + px
+        return ((["^i$"] if not flags["idtitles"] else ["^i$", "^zz"]) if not flags["id_attr"] else ["^id$", "^i$"]) + px + (["^pad$"] if flags.get("nested") else [])
     if cls is C.SubVertex:
         return ["^i$"] + (["^kind$"] if flags["class_attr"] else []) + px
     return ["^i$"]
@@ -171,6 +172,9 @@ def _check_render(case, vs, ls, u, opt, keep):
     if flags.get("id_attr"):
         for v in vs:
             v.id = "x%d" % v.i      # user data that happens to be called `id`
+    if flags.get("nested"):
+        for v in vs:
+            v.pad = 3                  # the width used by the nested format spec  v{i:0{pad}d}
     if flags.get("peers"):
         for k, v in enumerate(vs):
             v.peer = vs[(k + 1) % len(vs)]      # user data referring to other vertices (a ring: mutual for two vertices)
@@ -195,7 +199,7 @@ def _check_render(case, vs, ls, u, opt, keep):
 
             options = copy.deepcopy(plantuml.PLANTUML_RENDER_OPTIONS)
             ref_options = {k: (dict(v) if isinstance(v, dict) else v) for k, v in DEFAULT_TABLE().items()}
-            flags = dict(idtitles=True, custom_sub=False, urf=False, id_attr=False, class_attr=False, peers=False, default_table=True)
+            flags = dict(idtitles=True, custom_sub=False, urf=False, id_attr=False, class_attr=False, peers=False, nested=False, default_table=True)
             keep.pop("options", None)
     try:
         src = plantuml.render_to_plantuml_src(u, options)
@@ -217,7 +221,7 @@ def _check_render(case, vs, ls, u, opt, keep):
         c, o = nearest(type(v), ref_options)
         if o["title_format"] == "$id":
             return hex(id(v))
-        return o["title_format"].format(i=v.i, id=getattr(v, "id", None), kind=getattr(v, "kind", None))
+        return o["title_format"].format(i=v.i, id=getattr(v, "id", None), kind=getattr(v, "kind", None), pad=getattr(v, "pad", 0))
 
     def vtype(v):
         return nearest(type(v), ref_options)[1]["type"]
